@@ -67,7 +67,7 @@ def make_cases(ctx):
             "nst_to_server", "hb_declared_longer", "hb_short_padding",
             "finished_post_handshake", "cr_to_server",
             "pha_bad_finished", "pha_bad_signature", "pha_no_verify",
-            "pha_replay_answer", "hb_not_negotiated"]
+            "pha_replay_answer", "hb_not_negotiated", "ku_straddle"]
     for k in negs:
         for r in range(ctx.pick(2, 10)):
             yield "neg-%s-%d" % (k, r), dict(neg=k, r=r)
@@ -467,10 +467,75 @@ def run_pha_negative(ctx, cid, P):
                       "%s: server did not answer with a fatal alert" % k)
 
 
+def run_ku_straddle(ctx, cid, P):
+    """a KeyUpdate sharing its record with the first bytes of the next
+    handshake message: that message would span the key change (RFC 8446 5.1).
+    The sender really rotates its write key, so a receiver that let it pass
+    stays in step and delivers the data that follows."""
+    from tlslite.constants import CipherSuite
+    rng = ctx.rng
+    p, tc, ts = establish(rng, (3, 4), False, None)
+    if tc.status != "done" or ts.status != "done":
+        ctx.inconc("control failed in %s" % cid)
+        return
+    who = rng.choice(["client", "server"])
+    snd, ssock, vic, vsock, vname = (p.c, p.csock, p.s, p.ssock, "server") \
+        if who == "client" else (p.s, p.ssock, p.c, p.csock, "client")
+    ku = wire.hs_msg(24, b"\x00")          # update_not_requested
+    suite = snd.session.cipherSuite
+
+    def rotate():
+        cl, sr = snd._recordLayer.calcTLS1_3KeyUpdate_reciever(
+            suite, snd.session.cl_app_secret, snd.session.sr_app_secret)
+        snd.session.cl_app_secret, snd.session.sr_app_secret = cl, sr
+
+    def prog():
+        for r in snd._sendMsg(adv.Raw(22, ku + ku[:2])):
+            yield r
+        rotate()
+        for r in snd._sendMsg(adv.Raw(22, ku[2:])):
+            yield r
+        rotate()
+        yield from drive.awrite(snd, b"data-after")
+    t1 = drive.Task("snd", prog(), ssock)
+    drive.run([t1], p.link)
+    got = bytearray()
+    vt = None
+    for _ in range(4):
+        vt = drive.Task("vic", drive.aread(vic, None, 1), vsock)
+        drive.run([vt], p.link, max_steps=5000)
+        if vt.status != "done" or not vt.result:
+            break
+        got += vt.result
+        if bytes(got) == b"data-after":
+            break
+    ctx.ev()
+    ctx.count("negatives")
+    key = {"neg": "ku_straddle", "victim": vname, "ver": "TLS1.3"}
+    W = {"case": cid, "victim": (vt.status, repr(vt.exc)), "got": bytes(got)}
+    if vt.status == "exc" and isinstance(vt.exc, E.TLSLocalAlert) and \
+            vt.exc.level == 2:
+        ctx.count("neg_alerted")
+        ctx.cell("neg", "ku_straddle|%s|alert%d" % (vname,
+                                                    vt.exc.description))
+    elif vt.status == "exc" and mon.classify_exc(vt.exc).startswith(
+            ("undocumented", "tls:")):
+        ctx.violation(dict(key, clause="wrong_exception",
+                           exc=type(vt.exc).__name__, frame=vt.frame()), W,
+                      repr(vt.exc))
+    else:
+        ctx.violation(dict(key, clause="bad_control_message_tolerated",
+                           got=str(outcome(vt))), W,
+                      "a handshake message spanning the KeyUpdate key change "
+                      "was accepted; read %r" % bytes(got))
+
+
 def run_negative(ctx, cid, P):
     k = P["neg"]
     if k.startswith("pha_"):
         return run_pha_negative(ctx, cid, P)
+    if k == "ku_straddle":
+        return run_ku_straddle(ctx, cid, P)
     rng = ctx.rng
     ver = (3, 4)
     ckey = None
